@@ -770,8 +770,14 @@ var resumeProp = vh.Define("C12", "resume", func(c ResumeCase, r *vh.R) {
 		}
 		later++
 	}
-	if fr.fired && later >= 1 {
+	if fr.fired && len(c.Calls) >= 1 {
+		// non-trivial by what the harness did (a call failed on a reader fault, further calls were
+		// made); whether a decoder can be used again after a failure is its own business - one
+		// that answers every later call with an error is judged by "rejects-after-error" alone
 		r.NT()
+		r.Class("called-after-reader-fault")
+	}
+	if fr.fired && later >= 1 {
 		r.Class("decoded-after-error")
 	}
 	if c.EOF {
